@@ -20,6 +20,8 @@ import (
 const Module = "github.com/gopherjs/gopherjs"
 
 type Ctx struct {
+	NoAlpha bool // do not alpha-normalise local names (used when dumping the reference table)
+	Renamed int  // number of local variables renamed to their reference names
 	Repo    string
 	Verif   string
 	Tier    string
@@ -91,6 +93,9 @@ func (c *Ctx) Load() error {
 		}
 		if len(pkgs) < 30 {
 			c.loadErr = fmt.Errorf("only %d root packages loaded (expected >= 30)", len(pkgs))
+		}
+		if !c.NoAlpha {
+			c.Renamed = c.alphaNormalise()
 		}
 	})
 	return c.loadErr
